@@ -42,7 +42,7 @@ SO == INSTANCE SystemOps
 
 VARIABLES cCase,     \* <<seed, kind, stream, p, q, val>>
           cHist,     \* history to replay (sequence of EmuFull events)
-          cPos,      \* events replayed so far
+          cPos,      \* -1: not judged yet; then the number of events replayed so far
           cRes,      \* "" while replaying, then the verdict
           cSoft      \* an "ok" outcome would rest on something the property does not define
 cVars == <<allVars, cCase, cHist, cPos, cRes, cSoft>>
@@ -114,7 +114,8 @@ NKept(st) == IF st.cut < 0 THEN Len(st.evs)
 
 -----------------------------------------------------------------------------
 (* Seeds: valid traces.  Clocks are globally distinct and increase inside
-   each stream; every stream ends with OHe. *)
+   each stream; every stream of S1-S4 ends with OHe (as the runtime writes
+   them), S5 goes on after it. *)
 Ex(c, clk) == Ev("O", "OHx", <<c, 101, 7>>, clk)
 O(m, clk) == Ev("O", m, <<>>, clk)
 
@@ -154,7 +155,14 @@ S4 == <<Stream(Rank_(Cpus_(App_(BaseMeta(101, 1001, 1, {"O", "M"}), 1), C1), 0, 
         Stream(Rank_(Cpus_(App_(BaseMeta(201, 2001, 2, {"O", "M"}), 2), <<<<0, 20>>>>), 1, 2),
           <<Ex(0, 1002), Ev("M", "MUi", <<>>, 1012), Ev("M", "MUI", <<>>, 1022), O("OHe", 1032)>>)>>
 
-Seed(s) == CASE s = 1 -> S1 [] s = 2 -> S2 [] s = 3 -> S3 [] s = 4 -> S4
+\* S5: a flush after the thread has ended (the base model accepts it in any
+\* thread state): the only seed in which a truncation can lose events without
+\* losing the end of the thread, so that the trailing-fragment rule alone
+\* decides (and a cut at an event boundary after OHe leaves a valid trace)
+S5 == <<Stream(Cpus_(App_(BaseMeta(101, 1001, 1, {"O"}), 1), <<<<0, 10>>>>),
+          <<Ex(0, 1000), O("OHe", 1010), O("OF[", 1020), O("OF]", 1030)>>)>>
+
+Seed(s) == CASE s = 1 -> S1 [] s = 2 -> S2 [] s = 3 -> S3 [] s = 4 -> S4 [] s = 5 -> S5
 
 -----------------------------------------------------------------------------
 (* The acceptance function *)
@@ -405,7 +413,15 @@ CSpec == CInit /\ [][CNext]_cVars
 Done == cRes # ""
 Kind == cCase[2]
 SeedsAreValid == (Done /\ Kind = "none") => cRes = "ok"
-TruncAlwaysRejected == (Done /\ Kind = "trunc") => cRes = "reject"
+\* a truncation is rejected when it leaves a partial header or event, or loses the end of the thread;
+\* a cut at an event boundary after OHe leaves a trace that is judged like any other
+EndLostAt(st, c) == \A n \in 1..Len(st.evs) : st.evs[n].m = "OHe" => EndOff(st.evs, n) > c
+TruncAlwaysRejected ==
+   (Done /\ Kind = "trunc") =>
+      LET st == Seed(cCase[1])[cCase[3]]  c == cCase[4] IN
+      (c < 8 \/ c \notin Boundaries(st) \/ EndLostAt(st, c)) => cRes = "reject"
+\* every stream of seeds 1-4 ends with its only OHe: every truncation of them is rejected
+TruncOfPlainSeedsRejected == (Done /\ Kind = "trunc" /\ cCase[1] \in 1..4) => cRes = "reject"
 SwapAlwaysRejected == (Done /\ Kind \in {"swap", "clock"}) => cRes = "reject"
 HdrAlwaysRejected == (Done /\ Kind = "hdr") => cRes = "reject"
 JsonAlwaysRejected == (Done /\ Kind = "json") => cRes = "reject"
@@ -437,7 +453,7 @@ NoJumboRejected == (Done /\ Kind = "nojumbo") => cRes = "reject"
 \* nothing the family contains depends on an unspecified step of the reference semantics
 NoUnspecStep == ~unspec
 
-Props == /\ SeedsAreValid /\ TruncAlwaysRejected /\ SwapAlwaysRejected /\ HdrAlwaysRejected
+Props == /\ SeedsAreValid /\ TruncAlwaysRejected /\ TruncOfPlainSeedsRejected /\ SwapAlwaysRejected /\ HdrAlwaysRejected
          /\ JsonAlwaysRejected /\ MandatoryRejected /\ BadRequireRejected /\ NotRequiredRejected
          /\ UnknownRejected /\ WrongSizeRejected /\ NoJumboRejected
 
